@@ -1,4 +1,27 @@
-(* C12 placeholder (Model/Attr.v theorems follow in a later commit) *)
-From Coq Require Import List.
-Theorem C12_placeholder : forall (A : Type) (l : list A), l ++ nil = l.
-Proof. intros; apply app_nil_r. Qed.
+(* C12 - Same input, same output - independent of history and process state (model of the
+   process-global attribute mode, Model/Attr.v).
+   C12_history: the result of processing a text does not depend on the global state left by ANY
+   sequence of earlier runs (successful or failing): every run re-initialises the mode before any
+   attribute is stamped.  C12_needs_reset: without that re-initialisation the claim is false whenever
+   the schedule depends on the provided/inherited stamp (it does: a task's own start pins it).
+   C12_reschedule: schedule() on an already scheduled project is the identity (each scenario is
+   scheduled once).  Hash-seed independence, reuse of parser objects and report bytes are decided by the
+   runs of harness/props/c12.py (partial). *)
+From Coq Require Import List Arith Bool.
+Require Import SP.Model.Attr SP.Proofs.AttrProofs.
+Import ListNotations.
+
+Theorem C12_history : forall (Text Proj Res : Type) (parse : Text -> option Proj) (sched : bool -> Proj -> Res) g h t,
+  snd (run parse sched (after parse sched g h) t) = snd (run parse sched g t).
+Proof. intros; apply history_independent. Qed.
+Print Assumptions C12_history.
+
+Theorem C12_needs_reset : forall (Text Proj Res : Type) (parse : Text -> option Proj) (sched : bool -> Proj -> Res) pr t,
+  parse t = Some pr -> sched true pr <> sched false pr ->
+  exists g1 g2, snd (run_noreset parse sched g1 t) <> snd (run_noreset parse sched g2 t).
+Proof. intros; eapply noreset_refuted; eassumption. Qed.
+
+Theorem C12_reschedule : forall (S : Type) (step : nat -> S -> S) nsc st,
+  let r := schedule_once step nsc [] st in schedule_once step nsc (fst r) (snd r) = r.
+Proof. intros; apply reschedule_identity. Qed.
+Print Assumptions C12_reschedule.
